@@ -219,6 +219,7 @@ class Stream:
     nontrivial: List[bool] = field(default_factory=list)
     hist: Dict[str, int] = field(default_factory=dict)
     mismatches: List[Dict[str, Any]] = field(default_factory=list)
+    post: Optional[Callable[[str, str], str]] = None   # canonicalise (op, model output) before comparing
 
     def add(self, op: str, impl_answer: str, inp: Any = None, nontrivial: bool = True,
             tag: Optional[str] = None):
@@ -232,6 +233,8 @@ class Stream:
     def run(self):
         outs = driver(self.ops)
         for op, a, b, inp in zip(self.ops, self.impl, outs, self.inputs):
+            if self.post is not None:
+                b = self.post(op, b)
             if a != b:
                 self.mismatches.append(
                     {'stream': self.name, 'op': op if len(op) < 2000 else op[:2000] + '...',
